@@ -25,6 +25,15 @@ def run_property(prop_id: str, tier: str, root: str, seed: int,
             rep.count('index.modules', len(idx.modules))
             rep.count('index.functions', len(idx.funcs))
             rep.count('index.locals_alpha_converted', len(idx.alpha_renamed))
+            rep.count('index.compares_mirrored', len(idx.compares_mirrored))
+            if idx.compares_mirrored:
+                rep.notes.append(
+                    f'{len(idx.compares_mirrored)} comparisons are written '
+                    'the other way round than when the rules were written '
+                    'and are analysed mirrored (`a < b` as `b > a`), see '
+                    'sa/alpha.py (' + ', '.join(
+                        f'{q}: {a}' for _, q, a, b in
+                        idx.compares_mirrored[:5]) + ')')
             if idx.alpha_renamed:
                 eg = ', '.join(f'{q}: {a} analysed as {b}'
                                for _, q, a, b in idx.alpha_renamed[:5])
